@@ -62,6 +62,9 @@ func ikOracle(w *worldRun) (string, string) {
 		for r := range effects[res.Spec.IK] {
 			rows = append(rows, r)
 		}
+		if len(rows) == 0 && len(byKey[res.Spec.IK]) == 1 {
+			rows = byKey[res.Spec.IK] // the key's single effect predates the scenario (seeded entry): the request is a replay of it
+		}
 		if len(rows) == 0 {
 			return fmt.Sprintf("%s reported success with key %q but nothing took effect [%s]", res.Spec.Name, res.Spec.IK, w.digest()), "ik-success-no-row"
 		}
@@ -101,7 +104,7 @@ func refOracle(w *worldRun) (string, string) {
 		case res.Answered && res.Class != "ok" && committed:
 			return fmt.Sprintf("%s reported %s but its transaction is committed", res.Spec.Name, res.Class), "ref-error-with-row"
 		case res.Answered && res.Class != "ok" && res.Class != "conflict" && res.Class != "insufficient" && res.Class != "panic" &&
-			!w.Spec.FaultReads && !w.Spec.FaultInsert && !res.Spec.Cancellable:
+			!w.Spec.FaultReads && !w.Spec.ReadsGoDown && !w.Spec.FaultInsert && !res.Spec.Cancellable:
 			// (an attempt that fails for its own reason - injected store failure, cancelled by its caller - keeps that reason)
 			return fmt.Sprintf("%s lost the reference but reported %s (%v) instead of a conflict", res.Spec.Name, res.Class, res.Err), "ref-wrong-error"
 		}
